@@ -76,12 +76,12 @@ type RpmFile struct {
 
 type RpmView struct {
 	Name, Version, Release, Arch, OS, Summary, Description, License, URL, Vendor, Packager, Group, BuildHost, Compressor string
-	Epoch                                                                                                       uint32
-	HasEpoch                                                                                                    bool
-	BuildTime                                                                                                   uint32
-	Files                                                                                                       []RpmFile
-	Prein, Postin, Preun, Postun, Pretrans, Posttrans, Verify                                                   string
-	Provides, Requires, Recommends, Suggests, Conflicts, Obsoletes, Prefixes                                    []string
+	Epoch                                                                                                                uint32
+	HasEpoch                                                                                                             bool
+	BuildTime                                                                                                            uint32
+	Files                                                                                                                []RpmFile
+	Prein, Postin, Preun, Postun, Pretrans, Posttrans, Verify                                                            string
+	Provides, Requires, Recommends, Suggests, Conflicts, Obsoletes, Prefixes                                             []string
 }
 
 // DecodeRPM returns what the package says about itself: natively by reading
